@@ -110,7 +110,7 @@ class ShelxlRefine():
         if not acta_card:
             return
         self._acta_card = acta_card._textline.strip('\r\n')[:]
-        del self.shx._reslist[self.shx.index_of(acta_card)]
+        self.shx._delete_from_reslist(self.shx.index_of(acta_card))
         # acta_index = self.shx.index_of(acta_card)
         # self.shx.delete_on_write.update([acta_index])
         self.shx.acta = None
@@ -122,7 +122,7 @@ class ShelxlRefine():
         if not self._acta_card:
             return
         acta = ACTA(self.shx, self._acta_card.split())
-        self.shx._reslist.insert(self.shx.unit.index + 1, ' ')
+        self.shx._insert_into_reslist(self.shx.unit.index + 1, ' ')
         self.shx.acta = self.shx._assign_card(acta, self.shx.unit.index + 1)
 
     def backup_shx_file(self):
